@@ -139,6 +139,11 @@ pub enum Op {
     /// with various largest units, `&a - &b`, `duration_until`): they build
     /// temporaries that embed the handle.
     ZonedPair { a: u8, b: u8, which: u8 },
+    /// `until` and `since` between the value and a temporary `Zoned` at every
+    /// probe instant (same zone), for every largest unit: rare branches of
+    /// the difference algorithm (DST gaps and folds) are hit systematically
+    /// rather than by luck.
+    ZonedSweep { a: u8 },
     /// One of `N_TZ_MAKE` APIs that build a `Zoned`/`AmbiguousZoned` from a
     /// `TimeZone` handle (`Zoned::new`, `tz.to_zoned`, `dt.to_zoned`, ...).
     TzMake { src: u8, dst: u8, which: u8, t: u8 },
@@ -170,6 +175,7 @@ impl Op {
             Op::ZonedMutate { .. } => "zoned_mutate",
             Op::ZonedCompare { .. } => "zoned_compare",
             Op::ZonedPair { .. } => "zoned_pair",
+            Op::ZonedSweep { .. } => "zoned_sweep",
             Op::TzMake { .. } => "tz_make",
             Op::AmbOp { .. } => "amb_op",
             Op::Send { .. } => "send",
@@ -256,7 +262,7 @@ pub fn generate(rng: &mut Rng, thorough: bool) -> Case {
             let op = match rng.weighted(&[
                 w_new, 16, 12, 6, 8, 14, w_zoned, w_zoned / 2, w_zoned / 2, w_zoned / 2,
                 w_zoned / 2, w_zoned / 2, w_send, w_send, w_shared, w_crash,
-                w_zoned, w_zoned, w_zoned / 3, w_zoned / 2, w_zoned / 2, w_zoned,
+                w_zoned, w_zoned, w_zoned / 3, w_zoned / 2, w_zoned / 2, w_zoned, w_zoned / 3,
             ]) {
                 0 => {
                     let dst = slot(rng);
@@ -365,11 +371,12 @@ pub fn generate(rng: &mut Rng, thorough: bool) -> Case {
                     dst: slot(rng),
                     which: rng.below(N_AMB_OPS as u64) as u8,
                 },
-                _ => Op::ZonedPair {
+                21 => Op::ZonedPair {
                     a: full(rng, &occ),
                     b: full(rng, &occ),
                     which: rng.below(N_ZONED_PAIR as u64) as u8,
                 },
+                _ => Op::ZonedSweep { a: full(rng, &occ) },
             };
             let crash = op == Op::Crash;
             ops.push(op);
@@ -404,6 +411,9 @@ pub fn generate_small(rng: &mut Rng) -> Case {
                     }
                 }
                 Op::Send { to, .. } => *to %= n,
+                // 180 `until`/`since` calls per operation are too slow when
+                // interpreted.
+                Op::ZonedSweep { a } => *op = Op::ZonedPair { a: *a, b: *a, which: 3 },
                 _ => {}
             }
         }
